@@ -10,6 +10,7 @@ import (
 	"encoding/binary"
 	"fmt"
 	"io"
+	"runtime"
 	"sync"
 
 	"github.com/kardiachain/go-kardia/lib/p2p/conn"
@@ -363,6 +364,7 @@ func runFree(pr *pair, f freeSpec) (fs []finding, key string) {
 						werr[slot] = fmt.Errorf("Write(%d bytes) returned n=%d err=%v", len(pl), n, err)
 						return
 					}
+					runtime.Gosched() // invite the other writer in (any schedule must satisfy the oracle)
 				}
 			}(dirn*2+wr, dirn*2+wr+1, w)
 		}
